@@ -279,6 +279,7 @@ func (lu *LU) RankOne(orig *LU, alpha float64, x, y Vector) {
 		copy(lu.swaps, orig.swaps)
 		lu.updatePivots(lu.swaps)
 		lu.lu.Copy(orig.lu)
+		lu.ok = orig.ok
 	}
 
 	xs := getFloat64s(n, false)
